@@ -56,5 +56,7 @@ Definition c13_check (c : c13case) : bool :=
   | CEdit bd es bd' pkg ok ok' okall okall' files files' =>
       compile_check bd pkg ok files && compile_check bd' pkg ok' files' &&
       compile_check (apply_edits bd es) pkg ok' files' &&
-      Bool.eqb (valid bd) okall && Bool.eqb (valid (apply_edits bd es)) okall'
+      Bool.eqb (valid bd) okall && Bool.eqb (valid (apply_edits bd es)) okall' &&
+      (* the embedding itself, on what the real compiler produced before and after *)
+      (if ok && ok' then files_ext_b files files' else true)
   end.
